@@ -1,5 +1,4 @@
 """check configuration for C03 (cross-cutting; see lib/vmeta.py)"""
-import re
 
 def fails(obs, case):
     if obs.startswith("!hang"):
@@ -10,50 +9,12 @@ def fails(obs, case):
         return "item-count-exceeds-bound"
     return None
 
-def _open_brace_in_alternative(text):
-    """a '{' that is still open when the '|' or ')' of the enclosing group is reached (the parser resets its depth there)"""
-    stack, depth, quote = [], 0, False
-    for ch in text:
-        if quote:
-            quote = ch != '"'
-            continue
-        if ch == '"':
-            quote = True
-        elif ch == '{':
-            depth += 1
-        elif ch == '}':
-            depth = max(0, depth - 1)
-        elif ch == '(':
-            stack.append(depth)
-        elif ch in '|)' and stack:
-            if depth != stack[-1]:
-                return True
-            depth = stack[-1]
-            if ch == ')':
-                stack.pop()
-    return False
-
-
-def classify(case, obs):
-    """F40: exponential work of Scanner::exec on a pattern with a brace left open inside an alternative"""
-    if not obs.startswith("!hang"):
-        return None
-    m = re.search(r"(?:^| )text=([0-9a-f]*)", case)
-    if not m or " exec " not in " " + case.split(" fmt=")[0] + " ":
-        return None
-    try:
-        text = bytes.fromhex(m.group(1)).decode("latin-1")
-    except ValueError:
-        return None
-    return "unbalanced_brace_in_alternative_exponential" if _open_brace_in_alternative(text) else None
-
-
 WALKER = dict(bin="walker", driver_cmd=["python3", "lib/null_driver.py"], case_seconds=20)
 CSTR = dict(bin="cstrfmt", driver="cstrfmt_driver", model_ml="cstrfmt_model", extract=["CStrFmt"], case_seconds=3)
 
 CONFIG = dict(
 
-    claim="Partial (one open statement: every compiled AST of the documented pattern syntax passes the nesting check). Machine-checked proof, over the executable models of all traversals modelled so far, that the stated fuel - a function of the input length - always suffices, that item counts are bounded by the input and that the WORK is bounded by an explicit function of input and pattern length. Fuel and items: relocation blocks (fuel = length, at most len/8 blocks, at most len/2 words decoded and pairs yielded by the fold; the builder writes at most 12 bytes per rva), the string enumerator (at most length+1 items), sentinel / predicate scans and C strings on both read paths (fuel = slice length / element size + 1; the accepted index r satisfies (r+1)*size <= slice length, the NUL lies among the len bytes), the two backward scans of the Rich header (record count = (end-start-6)/2, all before e_lfanew), the pattern parser on any byte string (fuel length+1), the escape loops of <CStr as Debug>/<CStr as Display> (fuel length+1, at most 4 output bytes per byte; F15 repaired), the TLV parser (an item that parses consumes >= 4 words: at most len/4 items per level, at most len/4+1 results until exhaustion, at most one error), the binary searches of the exception directory and of the export names (floor(log2 n)+2 iterations of the loop on ANY table), Size/12 and Size/28 records of the exception and debug directories, and the resource traversal, tree printer and fsck (at most len/8 entries looked at in total and 32 levels, cycles and shared children included; fsck with a ghost visit counter whose erasure is fsck). Work, by ghost step counters whose erasure is the model function: (1) Exec::exec - the number of atoms executed plus retry-loop iterations over all nested invocations is at most wcost(pat) <= |pat| * prod over the Many atoms of (f_i + 1), f_i = number of cursor positions the skip range can try (min(slice length, 256*Rangext + operand), slice length for an open range): ONE FACTOR PER SKIP-RANGE OPERATOR, inherent in first-match-skipping-as-little-as-possible and stated, not hidden; linear (<= |pat|) without skip ranges (C03_exec_work_bounded, on every view shorter than 4 GiB, together with totality). This needs the Case blocks of the atom list to be properly nested, a decidable static check (cases_nested) proved sound against the interpreter (C03_exec_nesting_check_sound); for ARBITRARY atom lists the proved bound has a factor 2 per Case atom and that is attained: 12 hand-written Case(0) atoms take 2^13-1 steps (C03_exec_work_case_chain_refuted), and so does a pattern STRING the parser accepts - k groups '(%{|?)' with a brace left open inside the alternative take 7*2^k-5 steps (C03_exec_work_unbalanced_brace_refuted; finding F40, reproduced on the real Scanner::exec: k=24 0.6 s, doubling per group). (2) Matches::next - the implementation's own candidate counter `hits` grows by at most the distance range.start advances in one call and over any number of calls of an iteration, i.e. at most range length exec invocations per scan, and (end-start)+1 calls exhaust the iteration. (3) the string enumerator - one call examines exactly the bytes between the old and the new offset, a full iteration examines every byte exactly once (work = len). Restated from the directory modules: the exception binary search terminates on any table, POGO records, fsck on any section bytes including directories that contain themselves, the TLV parser stops after an error and the version-info walk completes with any visitor, forward-only iterators stay exhausted. Tied to /repo by re-running every component correspondence under a per-case CPU budget in isolated worker processes (a case that exceeds it is re-run alone with ten times the budget before it is called a hang), plus a walker that calls every iterator, formatter, serializer, fsck and scanner query on the shipped PE files and field-level corruptions of them with item-count assertions. The step counters themselves are not observed on the implementation (wall-clock budget only).",
+    claim="Machine-checked proof, over the executable models of all traversals modelled so far, that the stated fuel - a function of the input length - always suffices, that item counts are bounded by the input and that the WORK is bounded by an explicit function of input and pattern length. Fuel and items: relocation blocks (fuel = length, at most len/8 blocks, at most len/2 words decoded and pairs yielded by the fold; the builder writes at most 12 bytes per rva), the string enumerator (at most length+1 items), sentinel / predicate scans and C strings on both read paths (fuel = slice length / element size + 1; the accepted index r satisfies (r+1)*size <= slice length, the NUL lies among the len bytes), the two backward scans of the Rich header (record count = (end-start-6)/2, all before e_lfanew), the pattern parser on any byte string (fuel length+1), the escape loops of <CStr as Debug>/<CStr as Display> (fuel length+1, at most 4 output bytes per byte; F15 repaired), the TLV parser (an item that parses consumes >= 4 words: at most len/4 items per level, at most len/4+1 results until exhaustion, at most one error), the binary searches of the exception directory and of the export names (floor(log2 n)+2 iterations of the loop on ANY table), Size/12 and Size/28 records of the exception and debug directories, and the resource traversal, tree printer and fsck (at most len/8 entries looked at in total and 32 levels, cycles and shared children included; fsck with a ghost visit counter whose erasure is fsck). Work, by ghost step counters whose erasure is the model function: (1) Exec::exec - the number of atoms executed plus retry-loop iterations over all nested invocations is at most wcost(pat) <= |pat| * prod over the Many atoms of (f_i + 1), f_i = number of cursor positions the skip range can try (min(slice length, 256*Rangext + operand), slice length for an open range): ONE FACTOR PER SKIP-RANGE OPERATOR, inherent in first-match-skipping-as-little-as-possible and stated, not hidden; linear (<= |pat|) without skip ranges (C03_exec_work_bounded, on every view shorter than 4 GiB, together with totality). This needs the Case blocks of the atom list to be properly nested, a decidable static check (cases_nested) proved sound against the interpreter (C03_exec_nesting_check_sound) and proved to hold for EVERY pattern string the parser accepts (C03_exec_parsed_patterns_nested: parse s = Ok p -> cases_nested p = true, an invariant of the parser loop; hence also for every compiled AST of the documented syntax, C03_exec_compiled_patterns_nested), so the bound with one factor per skip range and none per Case holds for every accepted pattern string. For ARBITRARY hand-written atom lists the proved bound has a factor 2 per Case atom and that is attained: 12 hand-written Case(0) atoms take 2^13-1 steps (C03_exec_work_case_chain_refuted). Before the repair of F40 (repo 91e76e1) the same blow-up was reachable from a pattern STRING: the parser reset its brace depth at '|' and ')' and accepted k groups '(%{|?)' with a brace left open inside the alternative, which take 7*2^k-5 steps (C03_exec_work_unbalanced_brace_refuted on parse_orig, the parser as it stood; reproduced on the real Scanner::exec: k=24 0.6 s, k=28 beyond the CPU budget, doubling per group); the repaired parser reports StackError there (C03_unbalanced_brace_rejected). (2) Matches::next - the implementation's own candidate counter `hits` grows by at most the distance range.start advances in one call and over any number of calls of an iteration, i.e. at most range length exec invocations per scan, and (end-start)+1 calls exhaust the iteration. (3) the string enumerator - one call examines exactly the bytes between the old and the new offset, a full iteration examines every byte exactly once (work = len). Restated from the directory modules: the exception binary search terminates on any table, POGO records, fsck on any section bytes including directories that contain themselves, the TLV parser stops after an error and the version-info walk completes with any visitor, forward-only iterators stay exhausted. Tied to /repo by re-running every component correspondence under a per-case CPU budget in isolated worker processes (a case that exceeds it is re-run alone with ten times the budget before it is called a hang), plus a walker that calls every iterator, formatter, serializer, fsck and scanner query on the shipped PE files and field-level corruptions of them with item-count assertions. The step counters themselves are not observed on the implementation (wall-clock budget only).",
     note="Partial by nature: wall-clock time and stack bytes are not modelled; the models bound steps and recursion depth. Trusted: Coq kernel, extraction and glue, process isolation and the alarm()-based budget of the harness.",
     extract=["CStrFmt"],
     components=[
@@ -73,9 +34,8 @@ CONFIG = dict(
         dict(prop="C12", quick_cases=1500, thorough_cases=60000),
         dict(prop="C15", quick_cases=600, thorough_cases=40000),
     ],
-    open_statements=["C03_exec_compiled_patterns_nested : forall a, PatSyntax.wf a -> WorkSpec.cases_nested (PatSyntax.compile a) = true  (the nesting check accepts every compiled AST of the documented syntax - braces are balanced inside alternatives by construction; checked by vm_compute on the C11 example ASTs only, WorkProofs.cases_nested_examples)"],
+    open_statements=[],
     fails=fails,
-    classify=classify,
     rule="union of the component generators (see the evidence of C14, C20, C16, C05, C11) plus byte strings for the C string formatters (0x7F, 0x1F, 0x80, specials over-represented) and the walker inputs (2 demo DLLs, 11 tiny files, 217 corkami files; 0..6 field-level corruptions aimed at headers, data directories, section headers and directory contents; truncations; file and mapped). A case fails on a hang (CPU budget, confirmed by a 10x solo re-run), a stack exhaustion, or an item count above the analytic bound. Non-trivial: as defined by each component.",
     trusted_base=["per-case CPU budget via alarm() in an isolated worker process; SIGALRM = hang after a solo re-run with 10x budget"],
     assumptions=["64-bit usize", "buffer shorter than 4 GiB for the pattern interpreter"],
